@@ -319,6 +319,32 @@ def check_apply(ctx):
                 ctx.disagree(bad, case, final_u, o['out'])
 
 
+def check_debug_note(ctx):
+    """with debug=True the attempt-credit note and the debug log BOTH appear (msg of a single input, overall_message of a list)"""
+    from mitxgraders import StringGrader, ListGrader, SingleListGrader, LinearCredit, GeometricCredit
+    for sched in (LinearCredit(), GeometricCredit(factor=0.5)):
+        for attempt in (1, 3, 6):
+            for shape, mk, inp in [('single', lambda **kw: StringGrader(answers='a', **kw), 'a'), ('single-wrong', lambda **kw: StringGrader(answers='a', **kw), 'zz'),
+                                   ('list', lambda **kw: ListGrader(answers=['a', 'b'], subgraders=StringGrader(), **kw), ['a', 'zz']),
+                                   ('singlelist', lambda **kw: SingleListGrader(answers=['a', 'b'], subgrader=StringGrader(), **kw), 'a, b')]:
+                g = mk(attempt_based_credit=sched, attempt_based_credit_msg=True, debug=True)
+                try:
+                    r = with_alarm(lambda: g(None, inp, attempt=attempt), 10)
+                except Exception as e:
+                    ctx.violation('debugged grader with attempt credit raises %s' % type(e).__name__, {'part': 'debug-note', 'shape': shape, 'attempt': attempt}); continue
+                text = r.get('overall_message', '') if 'input_list' in r else r['msg']
+                credit = sched(attempt)
+                reduced = credit < 1 and any(e['grade_decimal'] > 0 or e['ok'] is not False for e in (r['input_list'] if 'input_list' in r else [r])) and shape != 'single-wrong'
+                has_note = 'Maximum credit for attempt #%d is' % attempt in text
+                has_log = 'MITx Grading Library Version' in text
+                case = {'part': 'debug-note', 'shape': shape, 'attempt': attempt, 'schedule': type(sched).__name__}
+                ctx.case(case, nontrivial_key=('debug-note', shape, attempt, type(sched).__name__), kind='debug-note')
+                if not has_log:
+                    ctx.violation('debug=True but the debug log is missing from the message', case, impl=text[:200])
+                if has_note != reduced:
+                    ctx.violation('the attempt-credit note is %s although a grade was %sreduced (debug=True)' % ('shown' if has_note else 'missing', '' if reduced else 'not '), case, impl=text[:300])
+
+
 def known_probe(ctx):
     from mitxgraders import LinearCredit
     v = LinearCredit(minimum_credit=0.33333)(10)
@@ -329,6 +355,7 @@ def known_probe(ctx):
 def run(ctx):
     check_schedules(ctx)
     check_apply(ctx)
+    check_debug_note(ctx)
     known_probe(ctx)
 
 
